@@ -1,8 +1,11 @@
-(* C17 - block helpers / contentOf receive exactly what the block renders to. Statements only.
-   PARTIAL: the block-level statements are proved; the partial / layout statements
-   (partial_call = render of the feeder's text in the child scope) are unfoldings of the
-   model's definition and are checked against the real engine by the inline-twin harness. *)
-From Plush Require Import model.Bytes model.Ast model.Value model.Eval proofs.EvalProofs.
+(* C17 - rendering via partial / layout / contentFor / block helpers equals rendering
+   inline. Statements only.  Each construct is characterised by what it reduces to:
+   the SAME evaluator (exec_prog / eval_block) run on the partial's text or the
+   stored block, in a fresh child of the right scope holding the data - which is
+   what "written inline in the equivalent scope" means - and the text comes back
+   as HTML, unescaped and once.  That the real engine behaves like these
+   equations is what the inline-twin harness and the correspondence check test. *)
+From Plush Require Import model.Bytes model.Ast model.Parser model.Ctx model.Value model.Eval proofs.EvalProofs.
 
 (* BlockWith(ctx): the helper gets the sink applied to the value of the block
    evaluated in ctx - exactly what the same statements render to there - and the
@@ -22,3 +25,100 @@ Proof. exact block_with_none. Qed.
 
 Print Assumptions C17_block_with.
 Print Assumptions C17_block_with_error.
+
+(* contentFor(name) { block } emits nothing where it is written: the block is stored,
+   together with the scope it was written in *)
+Theorem C17_content_for_emits_nothing : forall G fuel st cfg recv name ctx blk,
+  go_apply G (S fuel) st H_CONTENTFOR cfg recv [BV (VStr name); BHelp (HC ctx blk)] =
+  ROk (VNil, set_in st ctx (k_contentFor name) (VClosure ctx blk)).
+Proof. exact content_for_stores. Qed.
+Print Assumptions C17_content_for_emits_nothing.
+
+(* every later contentOf(name, data) replays the stored block in a fresh child of
+   the scope it was written in, with data added ... *)
+Theorem C17_content_of_replays_stored_block : forall G fuel st cfg recv name m ctx blk cctx cblk,
+  Ctx.value value VNil (sctx st) ctx (k_contentFor name) = VClosure cctx cblk ->
+  go_apply G (S (S fuel)) st H_CONTENTOF cfg recv [BV (VStr name); m; BHelp (HC ctx blk)] =
+  block_in_child G (S fuel) st cblk cctx
+    (match map_of_barg (sheap st) m with Some kvs => str_entries kvs | None => [] end).
+Proof. exact content_of_replays. Qed.
+Print Assumptions C17_content_of_replays_stored_block.
+
+(* ... or its own default block when the name is undefined, or fails *)
+Theorem C17_content_of_default_block : forall G fuel st cfg recv name m ctx b,
+  (forall cctx cblk, Ctx.value value VNil (sctx st) ctx (k_contentFor name) <> VClosure cctx cblk) ->
+  go_apply G (S (S fuel)) st H_CONTENTOF cfg recv [BV (VStr name); m; BHelp (HC ctx (Some b))] =
+  block_in_child G (S fuel) st (Some b) ctx
+    (match map_of_barg (sheap st) m with Some kvs => str_entries kvs | None => [] end).
+Proof. exact content_of_default_block. Qed.
+Theorem C17_content_of_undefined_is_an_error : forall G fuel st cfg recv name m ctx,
+  (forall cctx cblk, Ctx.value value VNil (sctx st) ctx (k_contentFor name) <> VClosure cctx cblk) ->
+  go_apply G (S fuel) st H_CONTENTOF cfg recv [BV (VStr name); m; BHelp (HC ctx None)] = RErr (EFail None) st.
+Proof. exact content_of_undefined_fails. Qed.
+
+(* a block replayed with data = BlockWith in a fresh child scope holding the data;
+   the text is handed back as HTML (C17_block_with says what the text is) *)
+Theorem C17_block_with_data_inline : forall G fuel st blk parent data st1 n body st3,
+  cnew_of G st parent = (st1, n) ->
+  block_with G fuel (set_all st1 n data) blk n = ROk (body, st3) ->
+  block_in_child G (S fuel) st blk parent data = ROk (VHTML body, st3).
+Proof. exact block_in_child_inline. Qed.
+Print Assumptions C17_block_with_data_inline.
+
+(* partial(name, data) without a layout: the feeder's text, parsed and executed by
+   the same evaluator in a fresh child of the caller's scope holding data; its
+   output comes back verbatim as HTML (unescaped, once) and the caller's scope
+   and current statement are restored *)
+Theorem C17_partial_inline : forall G fuel st name data ctx st1 n cfg text prog out st3,
+  cnew_of G st ctx = (st1, n) ->
+  Ctx.value value VNil (sctx (set_all st1 n data)) n k_partialFeeder = VGo H_FEEDER cfg ->
+  alookup bytes name (g_partials G) = Some text ->
+  parse text = ParseOk prog ->
+  exec_prog G fuel (with_stmt (with_cur (set_all st1 n data) n) None) prog [] = OOk out st3 ->
+  (forall ct, Ctx.value value VNil (sctx st3) n k_contentType <> VStr ct) ->
+  (forall l, alookup value k_layout data <> Some (VStr l)) ->
+  partial_call G (S fuel) st name data ctx =
+  ROk (VHTML out, with_stmt (with_cur st3 (scur (set_all st1 n data))) (sstmt (set_all st1 n data))).
+Proof. exact partial_inline. Qed.
+Print Assumptions C17_partial_inline.
+
+(* with a layout: what the partial rendered to is the layout's yield *)
+Theorem C17_partial_layout : forall G fuel st name data ctx st1 n cfg text prog out st3 layout,
+  cnew_of G st ctx = (st1, n) ->
+  Ctx.value value VNil (sctx (set_all st1 n data)) n k_partialFeeder = VGo H_FEEDER cfg ->
+  alookup bytes name (g_partials G) = Some text ->
+  parse text = ParseOk prog ->
+  exec_prog G fuel (with_stmt (with_cur (set_all st1 n data) n) None) prog [] = OOk out st3 ->
+  (forall ct, Ctx.value value VNil (sctx st3) n k_contentType <> VStr ct) ->
+  alookup value k_layout data = Some (VStr layout) ->
+  partial_call G (S fuel) st name data ctx =
+  partial_call G fuel (with_stmt (with_cur st3 (scur (set_all st1 n data))) (sstmt (set_all st1 n data)))
+    layout [(k_yield, VHTML out)] n.
+Proof. exact partial_layout. Qed.
+Print Assumptions C17_partial_layout.
+
+(* a partial whose text fails yields the error, never partial output *)
+Theorem C17_partial_error : forall G fuel st name data ctx st1 n cfg text prog l e st3,
+  cnew_of G st ctx = (st1, n) ->
+  Ctx.value value VNil (sctx (set_all st1 n data)) n k_partialFeeder = VGo H_FEEDER cfg ->
+  alookup bytes name (g_partials G) = Some text ->
+  parse text = ParseOk prog ->
+  exec_prog G fuel (with_stmt (with_cur (set_all st1 n data) n) None) prog [] = OErr l e st3 ->
+  partial_call G (S fuel) st name data ctx =
+  RErr (match e with EFail s => EFail s | EUnknown _ => EFail None end)
+       (with_stmt (with_cur st3 (scur (set_all st1 n data))) (sstmt (set_all st1 n data))).
+Proof. exact partial_error. Qed.
+
+(* the premises are satisfiable: a partial rendered through the model, end to end *)
+From Coq Require Import String.
+From Plush Require Import model.Lexer model.Cases.
+Local Open Scope string_scope.
+Example C17_partial_renders_inline_text :
+  match run_case [hx "7061727469616c"]
+          (mkrcase (hx "413c253d207061727469616c282270222c207b77686f3a2022573c227d2920253e42")
+                   [(hx "7061727469616c466565646572", DGo 14%N [])]
+                   [(hx "70", hx "5b3c253d2077686f20253e5d")] (ObsOk []) []) with
+  | OOk out _ => out = hx "415b57266c743b5d42"
+  | _ => False
+  end.
+Proof. vm_compute. reflexivity. Qed.
